@@ -55,10 +55,11 @@ func checkFanout(c *Ctx, cfg fanoutCfg) {
 		r.Rule("C10.Q3-execute", "queue processor: Pop in the critical section that re-checked the head (shared with C06)", 2)
 		r.Rule("C10.Q6-enqueue", "queue processor: Enqueue replaces by key and always calls process() (shared with C06)", 3)
 		r.Rule("C10.Q5-not-early", "queue processor: execute only when due (shared with C06)", 2)
+		r.Rule("C10.Q8-signals", "queue processor: token channel capacities and reset handling (shared with C06)", 4)
 	}
 	r.Rule(pre+".M2-departure-release", "sends into subscriber buffers under the lock select on a channel closed by the departing forwarder before it takes the lock", 1)
 	r.Rule(pre+".M3-close-escape", "closeCh can be closed without the lock held by a blocked fan-out and without waiting for it", 1)
-	r.Rule(pre+".M4-forwarders", "forwarders tracked by the wait group, with shutdown cases, deregistering under the lock; Close waits", 5)
+	r.Rule(pre+".M4-forwarders", "forwarders tracked by the wait group, with shutdown cases, deregistering under the lock; Close marks closed, passes the lock barrier, then waits", 6)
 	r.Rule(pre+".M5-delivery", "the value is offered to every subscriber entry; nothing sent once closed", 2)
 
 	guards := []GuardSpec{{Field: FieldID{pkg + "." + cfg.Type, "eventChs"}, Lock: lockID}}
@@ -193,6 +194,50 @@ func checkFanout(c *Ctx, cfg fanoutCfg) {
 			okWait = false
 		}
 	})
+	// barrier: subscribe() tests closed and does wg.Add under the lock; Close must pass through the
+	// lock after setting closed and before it starts waiting, or an in-flight subscribe adds a
+	// forwarder to the wait group after Wait has returned
+	const (
+		fCAS     = 4
+		fBarrier = 8
+	)
+	var ffb *FlagFlow
+	ffb = &FlagFlow{Fn: closeFn, Must: true, Transfer: func(in ssa.Instruction, st uint64) uint64 {
+		if _, isDefer := in.(*ssa.Defer); isDefer && !ffb.Replaying {
+			return st // registration of a deferred call, not its execution
+		}
+		if ci, ok := in.(ssa.CallInstruction); ok {
+			if obj := calleeObj(ci); obj != nil && (obj.Name() == "CompareAndSwap" || obj.Name() == "Store" || obj.Name() == "Swap") {
+				args := ci.Common().Args
+				if len(args) > 0 {
+					if id, _, ok := fieldOfValue(args[0]); ok && id.Field == "closed" {
+						return st | fCAS
+					}
+				}
+			}
+			if call, ok := in.(*ssa.Call); ok {
+				if id, kind, ok := e.lockOp(call); ok && id == lockID && kind == opLock && st&fCAS != 0 {
+					return st | fBarrier
+				}
+			}
+			if callIs(ci, "sync", "WaitGroup", "Wait") && wgIdent(ci.Common().Args[0]) == wgID {
+				if st&fBarrier != 0 {
+					return st | 16
+				}
+				return st | 32
+			}
+		}
+		return st
+	}}
+	ffb.Run()
+	okBarrier := true
+	ffb.AtReturns(func(ret *ssa.Return, st uint64) {
+		if st&16 == 0 || st&32 != 0 {
+			okBarrier = false
+		}
+	})
+	r.Check(okBarrier, pre+".M4-forwarders", cfg.Rel+"."+cfg.Type+".Close barrier", p.Pos(closeFn.Pos()), "Close passes through the lock after marking closed and before waiting for the forwarders",
+		"Close starts waiting for the forwarders without first passing through the component lock after setting the closed flag: a Subscribe that already passed its closed check but has not yet done wg.Add is not waited for — Close returns, and its forwarder then starts, delivers, and closes the subscriber channel after Close returned")
 	r.Check(okWait, pre+".M4-forwarders", cfg.Rel+"."+cfg.Type+".Close waits", p.Pos(closeFn.Pos()), "Close waits for the forwarders on every path", "Close can return without waiting for the forwarder goroutines: values may still be delivered and subscriber channels closed after Close returned")
 	// closeCh closed only under the closed CAS (at most once)
 	for _, u := range wg.byCh[closeCh] {
@@ -452,6 +497,7 @@ func c10QueueRules(c *Ctx) {
 	c06Execute(c, lockID)
 	c06Enqueue(c, lockID)
 	c06NotEarly(c, loop)
+	c06Signals(c, loop)
 }
 
 // c10UniqueID: the id stored in a subscriber entry is the value of a counter
